@@ -71,7 +71,18 @@ def seeded_table():
             how += " [patch " + " ".join(str(j["ported_by_lead"]).split())[:160] + "]"
         rows.append("| %s | %s | %s | %s | %s | %s |" % (os.path.basename(os.path.dirname(m)), j.get("property", ""), str(j.get("title", "")).replace("|", "/"),
                                                     " ".join(str(j.get("needs", "")).replace("|", "/").split())[:160], caught, how))
-    return "\n".join(rows) if len(rows) > 2 else "(seeded changes are being collected)"
+    metas = [json.load(open(m)) for m in glob.glob(os.path.join(VERIF, "seeded", "*", "meta.json"))]
+    live = [j for j in metas if not j.get("retired")]
+    conc = len([j for j in live if j.get("caught_by") and "concrete" in str(j.get("how_caught", ""))])
+    nfi = len([j for j in live if j.get("caught_by") and "concrete" not in str(j.get("how_caught", ""))])
+    miss = len([j for j in live if not j.get("caught_by")])
+    own = len([j for j in live if j.get("property") in (j.get("caught_by") or [])])
+    summary = ("**%d seeded changes** (four rounds; %d retired because a later fix: commit removed the code they changed): "
+               "%d reported with a concrete failing input, %d only as `no-failing-input-found` (a broken obligation / tie), %d missed; "
+               "%d are caught by the check of the property they were written against, the others by the check of a neighbouring property "
+               "(named in the table; the seeding agents only knew the property text, and several changes break more than one property).\n\n"
+               % (len(metas), len(metas) - len(live), conc, nfi, miss, own))
+    return summary + "\n".join(rows) if len(rows) > 2 else "(seeded changes are being collected)"
 
 
 def main():
